@@ -2,7 +2,7 @@ SPEC = {
     'id': 'C13',
     'harness': 'hC13',
     'coq_dir': 'C13',
-    'claimed': False,
+    'claimed': True,
     'theorems': [
         'C13_plugin_order_independent', 'C13_plugin_order_nonvacuous',
         'C13_tx_sort_order_independent', 'C13_tx_sort_is_stable_grouping', 'C13_tx_sort_nonvacuous',
